@@ -26,7 +26,9 @@ def f_expect_list(case):
     Bk = B.backend(be)
     S, c = C.dec_state(be, case['state'])
     rho = C.dense_state(case['state'])
-    L, K = ref.parse_list(case['obs'])
+    L, K = ref.parse_list(case['obs'], N)
+    if len(K) == 0 and be == 'torch':      # (the empty list is a pyclifford case)
+        return {'nt': False, 'labels': ['empty-list-skipped']}
     P = Bk.plist(L, K)
     s1, s2 = B.snapshot(S), B.snapshot(P)
     xs = Bk.num(S.expect(P))
@@ -49,7 +51,7 @@ def f_expect_list(case):
 def st_expect_list(be, hiN):
     return st.integers(1, hiN).flatmap(lambda N: st.fixed_dictionaries(
         {'be': st.just(be), 'N': st.just(N), 'state': gen.st_state(N),
-         'obs': st.one_of(gen.st_pauli_list(N, 1, 6, phases=(0, 2)), gen.st_commuting_obs(N, 1, 5))}))
+         'obs': st.one_of(gen.st_pauli_list(N, 0, 6, phases=(0, 2)), gen.st_commuting_obs(N, 1, 5))}))
 
 
 def _mix_obs(N):
